@@ -139,42 +139,45 @@ class RINGReaderError(RINGError):
     """
     Exception raised when input does not conform to RING syntax.
     """
-    def __init__(self, message):
-        self.message = message
+    def __init__(self, *message):
+        # several call sites pass the message in two or three pieces
+        self.message = ' '.join(str(part) for part in message)
 
     def __str__(self):
         return self.message
 
     def __repr__(self):
-        return '%s(%r, %r)' % (type(self).__name__, self.message)
+        return '%s(%r)' % (type(self).__name__, self.message)
 
 
 class MolQueryError(Exception):
     """
     Exception raised when input does not conform to RING syntax.
     """
-    def __init__(self, message):
-        self.message = message
+    def __init__(self, *message):
+        # several call sites pass the message in two or three pieces
+        self.message = ' '.join(str(part) for part in message)
 
     def __str__(self):
         return self.message
 
     def __repr__(self):
-        return '%s(%r, %r)' % (type(self).__name__, self.message)
+        return '%s(%r)' % (type(self).__name__, self.message)
 
 
 class ReactionQueryError(Exception):
     """
     Exception raised when input does not conform to RING syntax.
     """
-    def __init__(self, message):
-        self.message = message
+    def __init__(self, *message):
+        # several call sites pass the message in two or three pieces
+        self.message = ' '.join(str(part) for part in message)
 
     def __str__(self):
         return self.message
 
     def __repr__(self):
-        return '%s(%r, %r)' % (type(self).__name__, self.message)
+        return '%s(%r)' % (type(self).__name__, self.message)
 
 
 __all__ += ['RINGError', 'RINGSyntaxError', 'RINGReaderError',
